@@ -25,6 +25,7 @@ type GenOpts struct {
 	MaxExponent    float64
 	ForceByzIfAble bool
 	TwoFaced       bool // near-thirds table, Byzantine members run as two personalities
+	AllowPartial   bool // a third of the worlds deliver every message through the two-stage validation path
 	AllowDivergent bool // a would-be silent member may run as an honest participant with a diverged base view
 }
 
@@ -187,6 +188,9 @@ func GenConfig(t *rapid.T, o GenOpts) *Config {
 			cfg.Byz = nil
 			cfg.TwoFaced = false
 		}
+	}
+	if o.AllowPartial {
+		cfg.PartialPath = rapid.IntRange(0, 2).Draw(t, "partialpath") == 0
 	}
 	if o.AllowDivergent && !o.TwoFaced && len(cfg.Silent) > 0 && rapid.Bool().Draw(t, "divergent") {
 		d := cfg.Silent[0]
